@@ -678,6 +678,31 @@ func (c *kase) clauses(o *obs, fail func(class, what string)) {
 					p, isRedir = n, true
 				}
 			}
+			// the redirect route that has to answer: the first one, in route order, whose host list
+			// contains a pattern that (on its own) matches d, or that has no host matcher. The
+			// answer must be its port — whatever the size of the host list (the redirect matcher is
+			// a MatchHost that is never provisioned; above the large-list threshold its lookup is a
+			// binary search that relies on the order phase 1 happens to build the list in)
+			firstPort := -1
+			for _, r := range t.routes {
+				if !r.redir {
+					continue
+				}
+				m := !r.hasHost
+				for _, h := range r.hosts {
+					if hostMatches(name, h) {
+						m = true
+						break
+					}
+				}
+				if m {
+					firstPort = r.port
+					break
+				}
+			}
+			if firstPort >= 0 && (!isRedir || p != firstPort) {
+				fail("redirect:name-not-answered-by-the-first-redirect-route-that-lists-it", fmt.Sprintf("server %s: the first redirect route whose host list has a pattern matching %q names port %d, but a plain HTTP request for it gets %s (host lists of %d, ... entries)", t.name, name, firstPort, tok, maxHosts(t)))
+			}
 			if isRedir && right[p] {
 				anyRight = true
 				continue
@@ -849,6 +874,16 @@ func (c *kase) existingReceiverHasOnlyCatchAll(o *obs, cands []*oserver) bool {
 		}
 	}
 	return false
+}
+
+func maxHosts(t *oserver) int {
+	n := 0
+	for _, r := range t.routes {
+		if r.redir && len(r.hosts) > n {
+			n = len(r.hosts)
+		}
+	}
+	return n
 }
 
 func keys(m map[int]bool) []int {
